@@ -178,7 +178,7 @@ func workAcc(w *run.W) {
 	case "models":
 		pal := model.DefaultPalette()
 		idx := int64(-1)
-		only := map[string]bool{"group": true, "bodychild": true, "move": true}
+		only := map[string]bool{"group": true, "bodychild": true, "move": true, "rpcorder": true}
 		model.EnumDocs(pal, p.Budget, 0, func(d *model.Doc) {
 			idx++
 			if !w.Mine(idx) || !w.Begin(fmt.Sprintf("model:%d", idx)) {
@@ -233,6 +233,14 @@ var accNegatives = []struct{ Name, Text string }{
 	{"declared-tag-equals-path-tag", "JSIGHT 0.3\nTAG @cats // Mine\n  Description\n    about\nGET /x\n  Tags @cats\n  200 any\nGET /cats\n  200 any\nGET /cats/{id}\n  200 any\n"},
 	{"declared-tag-equals-path-tag-url-macro-rpc", "JSIGHT 0.3\nTAG @pets // Pets\nMACRO @m\n(\n  GET /y\n    Tags @pets\n    200 any\n)\nURL /z\n  Tags @pets\n  GET\n    200 any\nPASTE @m\nURL /pets\n  Protocol json-rpc-2.0\n  Method list\n    Params\n    {}\nGET /pets/{id}\n  200 any\n"},
 	{"url-tags-and-same-path-top-level-method", "JSIGHT 0.3\nTAG @pets\nURL /cats\n  Tags @pets\n  GET\n    200 any\nPOST /cats\n  200 any\nPUT /cats/{id}\n  200 any\n"},
+	// schemas whose example cannot be generated (an 'or' rule on an object / array example): found when serialising
+	{"or-on-object-example-response", "JSIGHT 0.3\nGET /a\n  200\n  {\n    \"m\": {} // {or: [{type: \"object\"}, {type: \"string\"}]}\n  }\n"},
+	{"or-on-array-example-type", "JSIGHT 0.3\nTYPE @t\n{\n  \"m\": [] // {or: [{type: \"array\"}, {type: \"integer\"}]}\n}\nGET /a\n  200 @t\n"},
+	{"or-on-object-example-rpc", "JSIGHT 0.3\nURL /r\n  Protocol json-rpc-2.0\n  Method m\n    Params\n    {\n      \"m\": {} // {or: [{type: \"object\"}, {type: \"string\"}]}\n    }\n"},
+	// messages described by headers only
+	{"response-headers-only", "JSIGHT 0.3\nGET /a\n  301\n    Headers\n    {\"Location\": \"/new\"}\n"},
+	{"request-headers-only", "JSIGHT 0.3\nPOST /a\n  Request\n    Headers\n    {\"X\": \"1\"}\n  200 any\n"},
+	{"response-headers-only-not-last", "JSIGHT 0.3\nGET /a\n  301\n    Headers\n    {\"Location\": \"/new\"}\n  200 any\n"},
 	{"same-tag-twice-in-tags", "JSIGHT 0.3\nTAG @t\nGET /a\n  Tags @t @t\n  200 any\n"},
 	{"same-tag-url-and-method", "JSIGHT 0.3\nTAG @t\nTAG @u\nURL /a\n  Tags @t\n  GET\n    Tags @u @t\n    200 any\n  POST\n    200 any\n"},
 	{"path-or-mismatch", "JSIGHT 0.3\nGET /a/{id}\n  Path\n  {\n    \"id\": \"x\" // {or: [{type: \"integer\"}, {type: \"boolean\"}]}\n  }\n  200 any\n"},
